@@ -565,8 +565,10 @@ func resolveStatusResponse(
 		}
 		defer func() { _ = dst.Close() }()
 
-		log = log.WithValues("backendAddr", netutil.Host(dst.RemoteAddr()))
-		return fetchStatus(log, dst, handshakeCtx.Protocol, statusRequestCtx)
+		// A logger of its own: with the ping cache this runs on the shared fetch goroutine
+		// while the requester may already be returning the captured log.
+		fetchLog := log.WithValues("backendAddr", netutil.Host(dst.RemoteAddr()))
+		return fetchStatus(fetchLog, dst, handshakeCtx.Protocol, statusRequestCtx)
 	}
 
 	if !route.CachePingEnabled() {
